@@ -907,8 +907,7 @@ int _vnacal_new_solve_internal(vnacal_new_t *vnp)
 	 * If _VNACAL_E12_UE14, convert to VNACAL_E12.
 	 */
 	if (type_in == _VNACAL_E12_UE14) {
-	    rc = convert_ue14_to_e12(e_vector, vlp_in, vlp_out);
-	    if (rc == -1) {
+	    if (convert_ue14_to_e12(e_vector, vlp_in, vlp_out) == -1) {
 		_vnacal_error(vcp, VNAERR_MATH, "vnacal_new_solve: "
 			"singular system");
 		goto out;
